@@ -67,9 +67,9 @@ def mode_cv(
     if classical:
         return np.array(len(freqs) * [Kb])
     else:
+        # x^2 e^-x / (1 - e^-x)^2, finite for any x
         x = freqs / Kb / temp
-        expVal = np.exp(x)
-        return Kb * x**2 * expVal / (expVal - 1.0) ** 2
+        return Kb * x**2 * np.exp(-x) / np.expm1(-x) ** 2
 
 
 def mode_F(
@@ -123,10 +123,9 @@ def mode_S(
     if classical:
         return Kb - Kb * np.log(freqs / (Kb * temp))
     else:
-        val = freqs / (2 * Kb * temp)
-        return 1 / (2 * temp) * freqs * np.cosh(val) / np.sinh(val) - Kb * np.log(
-            2 * np.sinh(val)
-        )
+        # x / (e^x - 1) - log(1 - e^-x), finite for any x
+        x = freqs / (Kb * temp)
+        return Kb * (x * np.exp(-x) / (-np.expm1(-x)) - np.log(-np.expm1(-x)))
 
 
 def mode_ZPE(
